@@ -131,7 +131,12 @@ pub fn run(tier: Tier) -> i32 {
                 continue;
             }
             let case = Case { shapes: shapes.clone(), rank_pattern };
-            let (viol, evals) = check_case(&case, &rc);
+            let mut evals = 0u64;
+            let viol = crate::common::run_case(|| serde_json::to_value(&case).unwrap(), || {
+                let (v, e) = check_case(&case, &rc);
+                evals = e;
+                v
+            });
             ctx.eval(evals);
             for (sig, what) in viol {
                 ctx.report(Violation { signature: sig, what, case: serde_json::to_value(&case).unwrap(), weight: shapes.len() as u64 });
